@@ -26,6 +26,9 @@ IrrepsOK(e) == \E T \in {e.T} : \E nc \in {Cardinality(Classes(T))} :
                         /\ \A j, k \in 1..Len(e.chars) : RowDot(T, e.chars[j], e.chars[k]) = (IF j = k THEN Len(T) ELSE 0)
 Valid(e) ==
   CASE e.op = "table" -> TableOK(e)
+    [] e.op = "cayley" -> \E T \in {e.T} : IsGroup(T) /\ \E inv \in {Invariants(T)} : \E ex \in {Expected(e.kind, e.n)} :       \* a table as a repository test obtained it
+                                /\ inv.order = ex.order /\ inv.profile = ex.profile /\ (Abelian(T) <=> ex.abelian)
+    [] e.op = "regular" -> \E T \in {e.T} : IsGroup(T) /\ LeftRegularOK(T, e.perm)                                          \* a left-regular form of any table
     [] e.op = "irreps" -> IrrepsOK(e)
     [] e.op = "pcount" -> e.p = PT[e.N + 1]
     [] e.op = "partitions" -> \E S \in {Parts(e.N, e.N)} : Len(e.rows) = Cardinality(S) /\ {StripZeros(e.rows[i]) : i \in 1..Len(e.rows)} = S /\ Cardinality(S) = PT[e.N + 1]
